@@ -235,7 +235,7 @@ theorem timInv_connectionFailed {s : Sess} (h : TimInv s) : TimInv s.connectionF
   split
   · refine TimInv.of_outer (s := ((s.setRetry none).closeConn).setSt .idle) (TimInv.of_idle (by simp)) (outer_connectionClosed _ _)
   · exact TimInv.of_idle (by simp)
-  · refine TimInv.of_outer (s := ((s.closeConn).setRetry (some s.retryDeadline)).setSt .active)
+  · refine TimInv.of_outer (s := (((s.closeConn).setRetry (some s.retryDeadline)).setHold none).setSt .active)
       (TimInv.of_not_session (by simp)) (outer_connectionClosed _ _)
   · exact TimInv.of_idle (by simp)
   · exact TimInv.of_idle (by simp)
